@@ -357,7 +357,7 @@ Section Keys.
   Qed.
 
   Lemma ck_mon_step s a cq : ck_rel s a ->
-    exists a', ck_mon c a (model_ev (ck_step c) ck_answer s cq) = Some a'
+    exists a', mon_of (spec_unit (ck_spec c)) ck_chk (fun _ _ => true) a (model_ev (ck_step c) ck_answer s cq) = Some a'
                /\ ck_rel (step_state (ck_step c) s (fst cq)) a'.
   Proof.
     apply (@unit_mon_step _ _ _ _ _ (ck_step c) ck_answer (ck_spec c) ck_chk (fun _ _ => true) ck_rel).
